@@ -1252,6 +1252,10 @@ def process_batch(arg):
                 st.count('flaky:not-reproduced')
                 crash = v.crash or v1.crash
                 st.count('flaky:' + (str(crash[1]) if crash else 'other'))
+                for vv in (v, v1):
+                    for o in (vv.obs or []):
+                        if o.get('stderr'):
+                            st.count('flaky:stderr:' + o['stderr'].strip().split('\n')[-1][:120])
                 v, bad = v1, bad1
         if v.informational:
             st.count('informational:histories')
